@@ -31,7 +31,7 @@ func Slices(columns ...interface{}) (slicetype.Type, bool) {
 	types := make([]reflect.Type, len(columns))
 	for i, col := range columns {
 		t := reflect.TypeOf(col)
-		if t.Kind() != reflect.Slice {
+		if t == nil || t.Kind() != reflect.Slice {
 			return nil, false
 		}
 		types[i] = t.Elem()
